@@ -17,7 +17,7 @@ ID = "C18"
 LEVEL = "exploration"
 QUICK_RUNS = 16000
 BATCH = 400
-FILE_KINDS = ["accepted", "rejected-field", "rejected-unique", "sibling", "missing", "directory"]
+FILE_KINDS = ["accepted", "rejected-field", "rejected-unique", "sibling", "missing", "directory", "io-error"]
 CID_KINDS = ["valid", "valid", "valid", "valid", "rejected", "missing", "directory"]
 RULE_TEXT = (
     "seeded scenarios: CID kind x ordered list of 0-3 data files over the six file kinds x --until x data format "
@@ -30,6 +30,8 @@ ASSUMPTIONS = [
     "where the statement yields two answers (a rejected file and an unreadable file in one list; a rejected CID and an "
     "unreadable data file) both 1 and 3 are accepted, but the answer must not depend on the order of the files",
     "unusable arguments surface as SystemExit(2) from main(), as argparse does",
+    "a text file on a medium that fails with EIO somewhere inside the file 'cannot be read' (exit 3); the command line "
+    "reads every named file to its end whatever --until says",
     "a list without data files only loads the CID: 0 if it is accepted",
 ]
 COMPONENTS = {
@@ -38,7 +40,7 @@ COMPONENTS = {
     "stub": ["SimFS (ENOENT, EISDIR) / SimRaw", "peers"],
 }
 PROBES_REQUIRED = ["limit-with-header", "cid:valid", "cid:rejected", "cid:missing", "cid:directory", "file:accepted", "file:rejected-field",
-                   "file:rejected-unique", "file:sibling", "file:missing", "file:directory", "until:absent", "until:-1",
+                   "file:rejected-unique", "file:sibling", "file:missing", "file:directory", "file:io-error", "until:absent", "until:-1",
                    "until:0", "until:k", "args-malformed", "rejected-and-unreadable-in-one-list", "exit:0", "exit:1",
                    "exit:3", "three-files"]
 BAD_ARGS = [[], ["--bogus"], ["--until", "x", "cid.csv"], ["--until", "-2", "cid.csv"], ["--until"], ["--log", "loud", "cid.csv"]]
@@ -67,6 +69,9 @@ def _table(kind, number, rng):
         return rows
     if kind == "sibling":
         return [["1", "x"], ["2", "yz"]]  # every sibling file uses the same keys
+    if kind == "io-error":
+        # content that would be accepted, on a medium that fails (EIO) somewhere inside the file
+        return [[str(base + 1), "x"], [str(base + 2), "yz"], [str(base + 3), "abc"], [str(base + 4), "x"]]
     return None
 
 
@@ -79,7 +84,9 @@ def generate(seed, tier):
     files = []
     for number in range(swarm.choice([0, 1, 1, 2, 2, 3, 3])):
         kind = swarm.choice(FILE_KINDS)
-        files.append({"kind": kind, "table": _table(kind, number, rng)})
+        if kind == "io-error" and fmt not in ("delimited", "fixed"):
+            kind = "accepted"  # the archive readers turn every failure into DataFormatError (see known finding for ODS)
+        files.append({"kind": kind, "table": _table(kind, number, rng), "fail_at": rng.random()})
     until = swarm.choice(["absent", "absent", "-1", "0", "k"])
     order2 = list(range(len(files)))
     rng.shuffle(order2)
@@ -153,14 +160,16 @@ def execute(scenario):
             if entry["kind"] == "directory":
                 fs.mkdir(path)
             elif entry["kind"] != "missing":
-                tabular.store(fs, path, spec, [["id", "nam"]] * spec["header"] + entry["table"])
+                data = tabular.store(fs, path, spec, [["id", "nam"]] * spec["header"] + entry["table"])
+                if entry["kind"] == "io-error":
+                    fs.read_errors[path] = int(entry.get("fail_at", 0.5) * (len(data) - 1))
         # ---- per-file verdicts through the API, fresh Cid each --------------------------------
         from cutplace import errors, validio
 
         verdicts = []
         if cid_kind == "valid":
             for path, entry in zip(paths, scenario["files"]):
-                if entry["kind"] in ("missing", "directory"):
+                if entry["kind"] in ("missing", "directory", "io-error"):
                     # "a named file cannot be read" is a fact about the storage, not an API verdict
                     # (validate(..., validate_until=0) for instance never opens the file)
                     verdicts.append("unreadable")
@@ -192,7 +201,7 @@ def execute(scenario):
         allowed = {3}
     elif cid_kind == "rejected":
         allowed = {1}
-        if any(entry["kind"] in ("missing", "directory") for entry in scenario["files"]):
+        if any(entry["kind"] in ("missing", "directory", "io-error") for entry in scenario["files"]):
             allowed = {1, 3}
     else:
         unreadable = "unreadable" in verdicts
@@ -207,6 +216,12 @@ def execute(scenario):
         else:
             allowed = {0}
 
+    if fs.stats.get("eio"):
+        result.fault("eio", fs.stats["eio"])
+    for name in ("enoent", "eisdir"):
+        fired = sum(1 for event in fs.log if event[0] == name)
+        if fired:
+            result.fault(name, fired)
     result.probe("cid:" + cid_kind)
     for entry in scenario["files"]:
         result.probe("file:" + entry["kind"])
@@ -272,7 +287,7 @@ def candidates(scenario):
     if scenario.get("order2") and scenario["order2"] != list(range(len(scenario["files"]))):
         yield lib.with_value(scenario, ["order2"], list(range(len(scenario["files"]))))
     for index, entry in enumerate(scenario["files"]):
-        if entry["kind"] not in ("accepted", "missing", "directory"):
+        if entry["kind"] not in ("accepted", "missing", "directory", "io-error"):
             candidate = copy.deepcopy(scenario)
             candidate["files"][index] = {"kind": "accepted", "table": _table("accepted", index, None)}
             yield candidate
